@@ -322,6 +322,55 @@ def _hoist_walrus(tree: ast.AST) -> None:
     ast.fix_missing_locations(tree)
 
 
+def _unalias_bound_methods(tree: ast.AST) -> None:
+    """append = result.append ... append(x)   ->   result.append(x)
+    A local bound once to a method of another local / parameter that is itself never rebound, and used for nothing but
+    being called (the "bind the attribute lookup outside the hot loop" idiom)."""
+    for fn in [n for n in ast.walk(tree) if isinstance(n, (ast.FunctionDef, ast.AsyncFunctionDef))]:
+        own: list[ast.AST] = []
+        stack: list[ast.AST] = list(fn.body)
+        while stack:
+            x = stack.pop()
+            own.append(x)
+            for ch in ast.iter_child_nodes(x):
+                if not isinstance(ch, (ast.FunctionDef, ast.AsyncFunctionDef, ast.Lambda, ast.ClassDef)):
+                    stack.append(ch)
+        nested_names = {y.id for n in ast.walk(fn) if n is not fn and isinstance(n, (ast.FunctionDef, ast.AsyncFunctionDef, ast.Lambda))
+                        for y in ast.walk(n) if isinstance(y, ast.Name)}
+        stores: dict[str, int] = {}
+        for x in own:
+            if isinstance(x, ast.Name) and isinstance(x.ctx, (ast.Store, ast.Del)):
+                stores[x.id] = stores.get(x.id, 0) + 1
+            if isinstance(x, (ast.Global, ast.Nonlocal)):
+                for nm in x.names:
+                    stores[nm] = stores.get(nm, 0) + 2
+        params = {a.arg for a in fn.args.posonlyargs + fn.args.args + fn.args.kwonlyargs}
+        for blk in [n for n in ast.walk(fn) if hasattr(n, "body") and isinstance(getattr(n, "body"), list)]:
+            for fld in ("body", "orelse", "finalbody"):
+                lst = getattr(blk, fld, None)
+                if not isinstance(lst, list):
+                    continue
+                for st in list(lst):
+                    if not (isinstance(st, ast.Assign) and len(st.targets) == 1 and isinstance(st.targets[0], ast.Name) and isinstance(st.value, ast.Attribute)
+                            and isinstance(st.value.value, ast.Name) and st in own):
+                        continue
+                    n_, x_ = st.targets[0].id, st.value.value.id
+                    if stores.get(n_) != 1 or n_ in params or n_ in nested_names or stores.get(x_, 0) > (0 if x_ in params else 1):
+                        continue
+                    if x_ not in params and x_ not in stores:
+                        continue  # a module-level / closure name: the attribute may be a plain function, leave it
+                    loads = [y for y in own if isinstance(y, ast.Name) and y.id == n_ and isinstance(y.ctx, ast.Load)]
+                    calls = [y for y in own if isinstance(y, ast.Call) and isinstance(y.func, ast.Name) and y.func.id == n_]
+                    if not loads or len(loads) != len(calls):
+                        continue
+                    for c in calls:
+                        c.func = ast.copy_location(ast.Attribute(value=ast.Name(id=x_, ctx=ast.Load()), attr=st.value.attr, ctx=ast.Load()), c.func)
+                    lst.remove(st)
+                    if not lst:
+                        lst.append(ast.copy_location(ast.Pass(), st))
+    ast.fix_missing_locations(tree)
+
+
 def _drop_local_annotations(tree: ast.AST) -> None:
     """Inside function bodies `x: T = v` is read as `x = v` (a local annotation has no effect at run time; class bodies and
     module level keep theirs - dataclass fields and typed constants are facts the rules use)."""
@@ -439,6 +488,7 @@ class Repo:
             _drop_local_annotations(tree)
             _desugar_match(tree)
             _hoist_walrus(tree)
+            _unalias_bound_methods(tree)
             set_parents(tree)
             mod = Module(name=name, path=path, source=src, tree=tree)
             mod.imports = collect_imports(tree.body, name, is_pkg)
